@@ -9958,3 +9958,78 @@ func rulePanicMust(w *World, r *Report) {
 		r.ok("PANIC-MUST", "module", "", "no Must* constructor is called outside tests")
 	}
 }
+
+// ACTION-BINDINGS-OWN (C04, C12): what an action is handed is its own, all the way down.
+func ruleActionBindingsOwn(prop string) ruleFn {
+	return func(w *World, r *Report) {
+		r.Rule("ACTION-BINDINGS-OWN", "the actions of a rule run concurrently, each in a script runtime that reads and writes the Go maps it is handed in place (otto works on them through reflection).  Where the condition's result is turned into one ExecRuleAction per action, the bindings of each are therefore a map made for that action whose values went through core.Copy: a structured value bound by the rule's `when` is otherwise one Go map in all the rule's actions, an action that annotates it alters what the others see, and the runtime ends the process with `concurrent map read and map write` — one ordinary event, no second client", 1)
+		cp := w.Func("core", "Copy")
+		n := 0
+		for _, fn := range w.Funcs {
+			if w.RelPkg(fn) != "core" || isTestFile(w, fn) {
+				continue
+			}
+			allInstrs(fn, func(in ssa.Instruction) {
+				st, ok := in.(*ssa.Store)
+				if !ok {
+					return
+				}
+				nn, f, _, ok := fieldOf(st.Addr)
+				if !ok || typeKey(nn) != "core.ExecRuleAction" || f != "Bindings" {
+					return
+				}
+				// one per action: the store lies in a loop
+				inLoop := false
+				for _, l := range naturalLoops(fn) {
+					if l.Body[st.Block()] {
+						inLoop = true
+					}
+				}
+				if !inLoop {
+					return
+				}
+				n++
+				key := "fn=" + fname(fn) + " store=ExecRuleAction.Bindings#" + itoa(n)
+				v := st.Val
+				for {
+					if ct, isCT := v.(*ssa.ChangeType); isCT {
+						v = ct.X
+						continue
+					}
+					break
+				}
+				mk, isMake := v.(*ssa.MakeMap)
+				if !isMake {
+					r.violation("ACTION-BINDINGS-OWN", key, w.PosOf(in), "every action of the rule is handed the same bindings map")
+					return
+				}
+				bad := ""
+				fills := 0
+				for _, ref := range *mk.Referrers() {
+					mu, isMU := ref.(*ssa.MapUpdate)
+					if !isMU || mu.Map != ssa.Value(mk) {
+						continue
+					}
+					fills++
+					if !dependsOn(mu.Value, func(x ssa.Value) bool {
+						c, isC := x.(*ssa.Call)
+						return isC && c.Common().StaticCallee() == cp
+					}) {
+						bad = w.PosOf(mu)
+					}
+				}
+				switch {
+				case bad != "":
+					r.violation("ACTION-BINDINGS-OWN", key, bad, "the action's map is its own, but the values in it are the same Go objects in every action of the rule (no core.Copy on the way): scripts that write to a bound object race on one map")
+				case fills == 0:
+					r.exempt("ACTION-BINDINGS-OWN", key, w.PosOf(in), "the map is not filled in this function: shape not recognised, not decided")
+				default:
+					r.ok("ACTION-BINDINGS-OWN", key, w.PosOf(in), "a map per action, values copied")
+				}
+			})
+		}
+		if n == 0 {
+			r.exempt("ACTION-BINDINGS-OWN", "fn=<none>", "", "no per-action store into ExecRuleAction.Bindings found: shape not recognised, not decided")
+		}
+	}
+}
